@@ -22,6 +22,11 @@
                                         statements, …, final none / E<code>)
     c16.nest N fuel pre , … ;; item ; … ;; post , …   IF TRUE THEN pre…; WHILE … IN N … END WHILE; post… END IF → trace
     c16.block stmt , stmt , …         IF TRUE THEN … END IF at top level            → trace
+    c16.openre N reps k row_1 … row_k ;; stmt , …   OPEN N whose query (result: the rows) calls, reps times, a function
+                                      with these statements (`openRe`: N is still closed meanwhile)   → trace
+    c16.conc L W                      W clients FETCH NEXT a fresh cursor of L rows until each has seen "no row"
+                                      (`runSched` over a round-robin schedule)      → handed h twice a never b foreign 0 none c end p
+    c16.concq L M                     M FETCH NEXT steps by 8 clients in turn on a fresh cursor of L rows   → the same tally
 -/
 import Csvq.Model.Cursor
 namespace Csvq.Drive
@@ -145,6 +150,39 @@ def extra (s : Scope String) (cmd : String) (args : List String) : Option (Scope
     | _, _ => none
   | _, _ => none
 
+/-- tally of a schedule on a fresh cursor over the rows 0 … L−1 -/
+def concTally (l : Nat) (sched : List Nat) : String :=
+  let r := runSched (CState.opened (List.range l) (-1) false) sched
+  let counts := (handedOut r.2).foldl (fun (a : Array Nat) i => if i < a.size then a.set! i (a[i]! + 1) else a) (Array.replicate l 0)
+  let handed := (handedOut r.2).length
+  let twice := counts.foldl (fun n c => if c > 1 then n + 1 else n) 0
+  let never := counts.foldl (fun n c => if c = 0 then n + 1 else n) 0
+  let foreign := ((handedOut r.2).filter (fun i => l ≤ i)).length
+  let none := (r.2.filter (fun e => e.2.isNone)).length
+  let endp := match r.1 with | .opened _ i _ => toString i | .closed => "closed"
+  s!"handed {handed} twice {twice} never {never} foreign {foreign} none {none} end {endp}"
+
+def conc (cmd : String) (args : List String) : Option String :=
+  match cmd, args.map String.toNat? with
+  | "conc", [some l, some w] =>
+    -- every client fetches until it has seen "no row": l + w steps, the clients in turn
+    some (concTally l ((List.range (l + w)).map (· % (max w 1))))
+  | "concq", [some l, some m] => some (concTally l ((List.range m).map (· % 8)))
+  | _, _ => none
+
+/-- OPEN with a function called by the cursor's query -/
+def openReCmd (s : Scope String) (args : List String) : Option (Scope String × String) :=
+  match args with
+  | n :: reps :: k :: rest =>
+    match reps.toNat?, k.toNat?, splitBy ";;" rest with
+    | some reps, some k, [rows, stmts] =>
+      if rows.length ≠ k then none else
+      match ((splitBy "," stmts).filter (fun x => !x.isEmpty)).mapM parseStmt with
+      | some body => let r := openRe [s] n rows reps body; some (r.1.headD [], showTrace r.2.1 true)
+      | none => none
+    | _, _, _ => none
+  | _ => none
+
 partial def c16Loop (h out : IO.FS.Stream) (s : Scope String) : IO Unit := do
   let line ← h.getLine
   if line.isEmpty then return ()
@@ -156,6 +194,19 @@ partial def c16Loop (h out : IO.FS.Stream) (s : Scope String) : IO Unit := do
       out.putStrLn "ok"
       c16Loop h out []
     | [_, cmd] =>
+      if cmd = "conc" || cmd = "concq" then
+        out.putStrLn ((conc cmd (args.filter (fun t => t ≠ ""))).getD "bad-op")
+        c16Loop h out s
+      else
+      if cmd = "openre" then
+        match openReCmd s (args.filter (fun t => t ≠ "")) with
+        | some (s', line) =>
+          out.putStrLn line
+          c16Loop h out s'
+        | none =>
+          out.putStrLn "bad-op"
+          c16Loop h out s
+      else
       if cmd = "fetchinto" || cmd = "whileinto" || cmd = "agg" then
         match extra s cmd (args.filter (fun t => t ≠ "")) with
         | some (s', line) =>
